@@ -210,6 +210,44 @@ def run(ctx, chk):
         dbl = [e for e in p.calls() if e.callee_name() in ("ge25519_p3_dbl", "ge25519_p2_dbl")]
         chk.ob("R7.4-x8", cc, "cofactor clearing performs three point doublings", len(dbl) == 3,
                detail="%d doublings" % len(dbl), key="R7.4-x8 ge25519_clear_cofactor")
+    # R7.5 exceptional inputs of the birational maps: a zero test that guards a field inversion must look at a
+    # quantity depending on everything the inverted denominator depends on ((x+1)*y vanishes when either factor does)
+    n75 = 0
+    for f in sorted(prog.functions(), key=lambda f: f.name):
+        if not f.unit.endswith("ed25519_ref10.c"):
+            continue
+        names = {i["callee"][1] for i in f.insts if i["op"] == "call" and i["callee"][0] == "g"}
+        if not ({"_sodium_fe25519_invert", "fe25519_invert"} & names) or "fe25519_cmov" not in names:
+            continue
+        for p in cm.paths(prog, f):
+            pd = deps.param_deps(prog, p)
+            inv = [e for e in p.calls("fe25519_invert")]
+            for e in p.calls("fe25519_cmov"):
+                cond = e.args[2]
+                tested = []
+                for l in T.leaves(cond):
+                    if l[0] == "call":
+                        z = [x for x in p.calls("fe25519_iszero") if x.res == l]
+                        tested += z
+                if not tested or not inv:
+                    continue
+                earlier = [x for x in inv if x.idx < e.idx]
+                if not earlier:
+                    continue
+                need_ = set()
+                for x in earlier:
+                    need_ |= pd.get(T.root(x.args[1]), set())
+                have = set()
+                for z in tested:
+                    have |= pd.get(T.root(z.args[0]), set())
+                n75 += 1
+                ok = need_ <= have
+                chk.ob("R7.5", f, "the zero test selecting the exceptional value depends on every input of the inverted denominator",
+                       ok, loc=f.loc(e.iid), detail="denominator depends on parameters %s; tested value on %s" % (
+                           sorted(f.params[i]["name"] for i in need_), sorted(f.params[i]["name"] for i in have)),
+                       path=None if ok else p, key="R7.5 %s" % f.sname)
+    chk.floor("R7.5", "inversion-guarding conditional moves in the ed25519 maps", n75, 1)
+
     # public generators write their output only through cofactor-clearing maps or validated addition
     okw = {f.key for f in clearing} | {need("crypto_core_ed25519_add").key}
     pubs = ["crypto_core_ed25519_from_uniform", "crypto_core_ed25519_from_string",
